@@ -39,6 +39,9 @@ func NewSeedSequencer(idx Index, src ...Seed) *SeedSequencer {
 // Plan returns a new possible plan, representing an ordered list of
 // segments that can be used to re-assemble the requested file
 func (r *SeedSequencer) Plan() (plan Plan) {
+	if len(r.index.Chunks) == 0 { // empty blob, nothing to do
+		return nil
+	}
 	for {
 		seed, segment, source, done := r.Next()
 		plan = append(plan, SeedSegmentCandidate{seed, source, segment})
